@@ -56,11 +56,11 @@ def oracle(one, lnt, text, lf, fixed, add, res):
     cb = [s.raw for s in b if fixfam.kind_of(s) == "code" and not s.is_meta]
     if ca != cb:
         i = next((i for i, (x, y) in enumerate(zip(ca, cb)) if x != y), min(len(ca), len(cb)))
-        add("code_tokens_changed", {}, {"fixed": fixed[:300], "in": ca[max(0, i - 1) : i + 3], "out": cb[max(0, i - 1) : i + 3]})
+        add("code_tokens_changed", {"new_double_dash": ("--" in fixed and "--" not in text)}, {"fixed": fixed[:300], "in": ca[max(0, i - 1) : i + 3], "out": cb[max(0, i - 1) : i + 3]})
     ma = collections.Counter(s.raw for s in a if fixfam.kind_of(s) == "comment")
     mb = collections.Counter(s.raw for s in b if fixfam.kind_of(s) == "comment")
     if ma != mb:
-        add("comments_changed", {}, {"fixed": fixed[:300], "in": sorted(ma.elements())[:4], "out": sorted(mb.elements())[:4]})
+        add("comments_changed", {"new_double_dash": ("--" in fixed and "--" not in text)}, {"fixed": fixed[:300], "in": sorted(ma.elements())[:4], "out": sorted(mb.elements())[:4]})
     # NOTE: the relative order of comments and code tokens is deliberately not compared: the
     # statement fixes the code-token sequence and the comment multiset only (LT04 moves a comma
     # past a trailing comment by design). An earlier clause that did compare it was a false alarm.
